@@ -202,6 +202,7 @@ example : expD ONE = some 27182818284590452353602874043083282 := by decide +kern
 example : expD (-ONE) = some 3678794411714423215955237792349248 := by decide +kernel
 example : lnD (2 * ONE) = some 6931471805599453094172321818152860 := by decide +kernel
 example : lnD 0 = none ∧ lnD (-ONE) = none := by decide +kernel
+example : lnD ONE = some 0 := by decide +kernel
 example : powD (2 * ONE) (10 * ONE) = some 10240000000000000000000004785057073557 := by decide +kernel
 example : powD (-2 * ONE) (3 * ONE) = some (-79999999999999999999999979824238600) := by decide +kernel
 
